@@ -405,9 +405,9 @@ def install_stubs(rec, case, vleobj):
     def rows_of(phase_mol):
         return [(ph, fl(m.to_array() if hasattr(m, 'to_array') else m)) for ph, m in phase_mol]
     def xH(self, phase_mol, T, P):
-        v = lin_H(co, rows_of(phase_mol), T); rec.add('xh', v); return v
+        v = lin_H(co, rows_of(phase_mol), T); rec.add('xh', v, [float(T), float(P)]); return v
     def Hp(self, phase, mol, T, P):
-        v = lin_H(co, [(phase, fl(mol.to_array() if hasattr(mol, 'to_array') else mol))], T); rec.add('hp', v); return v
+        v = lin_H(co, [(phase, fl(mol.to_array() if hasattr(mol, 'to_array') else mol))], T); rec.add('hp', v, [float(T), float(P)]); return v
     def solveT(self, phase_mol, H, T, P):
         v = T + rec.draw(TOFF); rec.add('st', v); return v
     for name in ('xH', 'xS'): p.set(Mix, name, xH)
@@ -607,6 +607,20 @@ def gen_vleh_case(rng, mode='stub'):
         else: ops.append(['redist', [rng.choice([0., 0.25, 0.5, 0.75, 1.]) for _ in range(n)]])
         if rng.random() < 0.5: ops.append(['vle', sk, spec])                # the same call again
         else: ops.append(['vle'] + list(one_spec()))
+    if rng.random() < 0.35:
+        # the set of phases of the stream is widened IN PLACE between two flashes: copy_like(a stream that also has a second liquid /
+        # a solid phase) -- rows are inserted in front of / behind 'g', 'l' (phases are kept sorted: 'L' < 'S' < 'g' < 'l' < 's'),
+        # so the rows the VLE object works on move inside the indexer
+        l2, g2, _ = gen_flows(rng, [a + b > 0 or rng.random() < 0.2 for a, b in zip(base['l'], base['g'])])
+        extra = rng.choice(['L', 'L', 'S', 'LS', 'Ls'])
+        rows = {}
+        for ph in extra:
+            r = [0.] * n
+            for i in ((0, 1, 2, 5) if ph == 'L' else (5, 6)):
+                if rng.random() < 0.6: r[i] = rng.choice(FLOWS)
+            rows[ph] = r
+        ops += [['widen', l2, g2, rows, rng.choice([310., 330.]), rng.choice([90000., 101325.])], ['vle', sk, spec]]
+        if rng.random() < 0.5: ops.append(['vle'] + list(one_spec()))
     if rng.random() < 0.45:
         # the stream gets linked to another stream's data between two flashes (flash, link_with(flow=True), flash again)
         l2, g2, _ = gen_flows(rng, [a + b > 0 or rng.random() < 0.2 for a, b in zip(base['l'], base['g'])])
@@ -620,11 +634,20 @@ def apply_outside_op(case, s, op, keep=None):
     if op[0] == 'link':
         # the stream is linked to another multi-phase stream: its flow data (and, with TP, its thermal condition) are REPLACED
         e = env(); tmo = e['tmo']
-        other = tmo.MultiStream(None, T=op[3], P=op[4], phases=case['phases'], thermo=e['thermo'])
+        other = tmo.MultiStream(None, T=op[3], P=op[4], phases=tuple(s.phases), thermo=e['thermo'])    # (same set of phases: a widened stream stays widened)
         other.imol['l'] = np.array(op[1], float); other.imol['g'] = np.array(op[2], float)
-        if 's' in case['phases']: other.imol['s'] = np.array(case['s'], float)
+        if 's' in s.phases: other.imol['s'] = np.array(case['s'], float)
         s.link_with(other, flow=True, phase=False, TP=bool(op[5]))
         if keep is not None: keep.append(other)
+        return True
+    if op[0] == 'widen':
+        e = env(); tmo = e['tmo']
+        phases = tuple(sorted(set(case['phases']) | set(op[3])))
+        src = tmo.MultiStream(None, T=op[4], P=op[5], phases=phases, thermo=e['thermo'])
+        src.imol['l'] = np.array(op[1], float); src.imol['g'] = np.array(op[2], float)
+        if 's' in case['phases'] and 's' not in op[3]: src.imol['s'] = np.array(case['s'], float)
+        for ph, r in op[3].items(): src.imol[ph] = np.array(r, float)
+        s.copy_like(src)
         return True
     if op[0] == 'redist':
         l = np.array(fl(s.imol['l'].to_array())); g = np.array(fl(s.imol['g'].to_array())); tot = l + g
@@ -641,9 +664,17 @@ def run_vleh(case):
     v = s.vle                      # one object for the whole history
     rec = Rec(case)
     p = install_stubs(rec, case, v) if case['mode'] == 'stub' else install_recorders(rec, v)
-    calls = []; keep = []
+    calls = []; keep = []; widen = []
     try:
         for op in case['ops']:
+            if op[0] == 'widen':
+                # the indexer layout before, and what every KEY hands out afterwards (s.imol[phase]: the path VLE._setup takes)
+                before = [(ph, fl(r.to_array())) for ph, r in tuple(s.imol)]
+                apply_outside_op(case, s, op, keep)
+                phys = [(ph, fl(r.to_array())) for ph, r in tuple(s.imol)]
+                after = [(ph, fl(s.imol[ph].to_array())) for ph in s.phases]
+                widen.append({'before': before, 'phys': phys, 'after': after})
+                continue
             if apply_outside_op(case, s, op, keep): continue
             sk = op[1]
             c1 = dict(case, sk=sk, spec=op[2])
@@ -666,10 +697,17 @@ def run_vleh(case):
             calls.append(out)
     finally:
         p.undo()
-    return {'calls': calls}
+    return {'calls': calls, 'widen': widen}
 
 def coq_vleh(case, out):
     ts = [coq_vle(dict(case, sk=o['sk'], spec=o['spec']), o) for o in out['calls']]
+    if CHECK_FN == 'vle_check_flows':      # (C03 only: ModelHist.v is not among the files C04 loads)
+        rank = {'L': 0, 'S': 1, 'g': 2, 'l': 3, 's': 4}
+        for w in out.get('widen', []):
+            phs = clist([cnat(rank[ph]) for ph, _ in w['before']])
+            al = clist([cnat(rank[ph]) for ph, _ in w['phys']]); rows = clist([qlist(r) for _, r in w['phys']])
+            for ph, r in w['after']:
+                ts.append(f'(expand_key_check {phs} {al} {rows} {cnat(rank[ph])} {qlist(r)})')
     return '(' + ' && '.join(ts) + ')' if ts else 'true'
 
 def oracle_vleh(case):
@@ -693,8 +731,12 @@ def oracle_vleh(case):
         if msg: return f'vle({sk}) on a used stream: {msg}'
         for c in (3, 4):
             if abs(fin['l'][c]) > 0: return f'vle({sk}) on a used stream: gas-only chemical {IDS[c]} left in the liquid: {fin["l"][c]}'
+            for k_, (a, b) in enumerate(zip(init['oth'], fin['oth'])):
+                if b[c] > a[c]: return f'vle({sk}) on a used stream: gas-only chemical {IDS[c]} moved into a phase other than g (row {k_} of the others): {a[c]} -> {b[c]}'
         for c in (5, 6):
             if abs(fin['g'][c]) > 0: return f'vle({sk}) on a used stream: liquid/solid-only chemical {IDS[c]} in the gas: {fin["g"][c]}'
+        for k_, (a, b) in enumerate(zip(init['oth'], fin['oth'])):
+            if a != b: return f'vle({sk}) on a used stream: a phase other than l / g (row {k_} of the others) was written: {a} -> {b}'
     return None
 
 def run_vle(case):
@@ -924,7 +966,7 @@ def st_term(sn):
 def tape_term(default, entries, f):
     return f'(tape {default} {clist([f"({cnat(k)}, {f(v)})" for k, v in entries])})'
 
-def orc_term(case, out):
+def orc_term(case, out, miss='0'):
     ev = out['events']
     chem = out.get('chem') or {}
     Tc = q(chem.get('Tc', 0.)); Psat = q(chem.get('Psat', 0.)); Tsat = q(chem.get('Tsat', 0.))
@@ -937,14 +979,16 @@ def orc_term(case, out):
     vv = '(tape2 [] ' + clist([f'({cnat(k)}, {q(args[k][0])}, {q(args[k][1])}, {qlist(v)})' for k, kind, v in ev if kind == 'v']) + ')'
     iq = tape_term('([], 0)', [(k, v) for k, kind, v in ev if kind == 'iq'], lambda v: f'({qlist(v[0])}, {q(v[1])})')
     st = tape_term('0', [(k, v) for k, kind, v in ev if kind == 'st'], q)
+    # H / S calls: answered only when the model asks at the (T, P) the implementation asked at (tick by tick); otherwise [miss]
+    hits = lambda kd: clist([f'({cnat(k)}, {q(args[k][0])}, {q(args[k][1])})' for k, kind, v in ev if kind == kd])
     if case['mode'] == 'stub':
         co = case['co']
         lin = f'{qlist(co["hl"])} {qlist(co["hg"])} {qlist(co["cl"])} {qlist(co["cg"])}'
-        xh = f'(fun _ s T _ => lin_xH {lin} s T)'
-        hp = f'(fun _ gas mol T _ => lin_Hp {lin} gas mol T)'
+        xh = f'(fun k s T P => if hit2 {hits("xh")} k T P then lin_xH {lin} s T else {miss})'
+        hp = f'(fun k gas mol T P => if hit2 {hits("hp")} k T P then lin_Hp {lin} gas mol T else {miss})'
     else:
-        xh = '(fun k _ T P => tape2 0 ' + clist([f'({cnat(k)}, {q(args[k][0])}, {q(args[k][1])}, {q(v)})' for k, kind, v in ev if kind == 'xh']) + ' k T P)'
-        hp = '(fun k _ _ T P => tape2 0 ' + clist([f'({cnat(k)}, {q(args[k][0])}, {q(args[k][1])}, {q(v)})' for k, kind, v in ev if kind == 'hp']) + ' k T P)'
+        xh = f'(fun k _ T P => tape2 {miss} ' + clist([f'({cnat(k)}, {q(args[k][0])}, {q(args[k][1])}, {q(v)})' for k, kind, v in ev if kind == 'xh']) + ' k T P)'
+        hp = f'(fun k _ _ T P => tape2 {miss} ' + clist([f'({cnat(k)}, {q(args[k][0])}, {q(args[k][1])}, {q(v)})' for k, kind, v in ev if kind == 'hp']) + ' k T P)'
     return (f'(mkorc {Tc} (fun _ => {Psat}) (fun _ => {Tsat}) {q(out["lims"][0])} {q(out["lims"][1])} '
             f'{b} {d} {vv} {iq} {xh} {hp} (fun k _ _ _ _ => {st} k))')
 
@@ -961,8 +1005,12 @@ def coq_vle(case, out):
     if any(e[2] is None for e in out['events']):
         return 'true'     # a real solver / property model raised inside the call: outside the model (oracles return values)
     raised = 'None' if out['raised'] is None else f'(Some {out["raised"]})'
-    return (f'({CHECK_FN} {cfg_term()} {orc_term(case, out)} {spec_term(case, out)} {st_term(out["init"])} '
-            f'{st_term(out["final"])} {raised} {cnat(out["ticks"])})')
+    one = lambda miss: (f'({CHECK_FN} {cfg_term()} {orc_term(case, out, miss)} {spec_term(case, out)} {st_term(out["init"])} '
+                        f'{st_term(out["final"])} {raised} {cnat(out["ticks"])})')
+    if not any(e[1] in ('xh', 'hp') for e in out['events']): return one('0')
+    return f'({one(MISS)} && {one("(- " + MISS + ")")})'
+
+MISS = '(1267650600228229401496703205376 # 1)'      # 2^100: what a H / S call with other arguments than the recorded ones returns
 
 def coq_lle(case, out):
     e = env()
